@@ -433,9 +433,9 @@ def simu_cases(draw):
     # at the trial state), which happens at some point of almost every FE step (observed 45 % inconclusive runs)
     spec = draw(cr.behaviour_specs(modes=(mode,), surface=["vm", "vm", "hill"], hetero_ok=False, branches_ok=False))
     nops = draw(st.integers(4, 10))
-    ops, nsave = [["solve", draw(st.integers(2, 4))]], 0
-    for _ in range(nops - 1):
-        kind = cr.pick(draw, ["solve", "solve", "save", "save", "set"])
+    ops, nsave = [["solve", draw(st.integers(2, 4))], ["save"]], 1
+    for _ in range(nops - 2):
+        kind = cr.pick(draw, ["solve", "save", "set", "solve", "save", "set", "solve"])
         if kind == "solve":
             ops.append(["solve", draw(st.integers(-3, 3))])     # load increment
         elif kind == "save":
@@ -595,12 +595,19 @@ def check_matpoint(case, rec):
         raise Inconclusive("MaterialPoint: stress control diverged")
     z0 = np.zeros((1, 1, ref.n))
     one = np.ones((1, 1), bool)
+    free = [i for c, i in comp.items() if c not in case["driven"]]
     flowed = unloaded = False
     for k in range(len(eps_h)):
         for c in case["driven"]:
             rec.require(eps_h[k, comp[c]] == drive[c][k], "matpoint_driven", f"step {k}: driven strain not applied", **sg)
         eps6, z1 = eps_h[k][None, None], z_h[k][None, None]
         sc.see(eps6)
+        # a mixed-control step is converged only if the stress-controlled components reached their (zero) target;
+        # Run stops its Newton at |r| < 1e-9 (absolute) or after 50 iterations
+        if free and not rec.close(sig_h[k][free], sc.sig, 1e-6, "matpoint_targets",
+                                  f"step {k}: MaterialPoint.Run recorded a step whose stress-controlled components "
+                                  f"are not at their target (stress control not converged, no error raised);", **sg):
+            return
         fl = step_oracles(rec, spec, ref, sc, sg, eps6, z0, z1, sig_h[k][None, None], one, k)
         unloaded |= flowed and not fl.any()
         flowed |= bool(fl.any())
@@ -609,14 +616,14 @@ def check_matpoint(case, rec):
 
 
 SUBS = [
-    Sub("paths_3d", check_paths, gen=path_cases(("3D",)), quick=110, thorough=1500, shards=6,
+    Sub("paths_3d", check_paths, gen=path_cases(("3D",)), quick=90, thorough=1500, shards=6,
         doc="pointwise oracles + purity along generated strain paths, 3D"),
-    Sub("paths_pstrain", check_paths, gen=path_cases(("PE",)), quick=110, thorough=1500, shards=4),
-    Sub("paths_pstress", check_paths, gen=path_cases(("PS",)), quick=40, thorough=800, shards=6),
-    Sub("tangent", check_tangent, gen=tangent_cases, quick=120, thorough=1500, shards=6),
-    Sub("solvers", check_solvers, gen=solver_cases, quick=120, thorough=1500, shards=4),
+    Sub("paths_pstrain", check_paths, gen=path_cases(("PE",)), quick=90, thorough=1500, shards=4),
+    Sub("paths_pstress", check_paths, gen=path_cases(("PS",)), quick=32, thorough=800, shards=6),
+    Sub("tangent", check_tangent, gen=tangent_cases, quick=100, thorough=1500, shards=6),
+    Sub("solvers", check_solvers, gen=solver_cases, quick=100, thorough=1500, shards=4),
     Sub("elastic_limit", check_elastic, gen=elastic_cases, quick=200, thorough=2000, shards=2),
-    Sub("simu_commit", check_simu, gen=simu_cases, quick=100, thorough=400, shards=8),
+    Sub("simu_commit", check_simu, gen=simu_cases, quick=80, thorough=400, shards=8),
     Sub("matpoint", check_matpoint, gen=matpoint_cases, quick=100, thorough=600, shards=4),
 ]
 
